@@ -245,10 +245,10 @@ def check(c, tier, replay):
         part = scns[i:i + 3000]
         mism, tp = run_and_validate(c, drv, part, 'sched%d' % i)
         c.cov['conformance_mismatches'] += len(mism)
-        if first:
+        handle(c, drv, part, mism, 'sched')
+        if first and not c.violations:
             binding_selftest(c, tp)
             first = False
-        handle(c, drv, part, mism, 'sched')
     c.cov['distinct_nontrivial'] = len({json.dumps([s['sched'], s['errs'], s['initopen'], s['probenum'], s['timeout']]) for s in scns
                                         if s['initopen'] or any(s['errs'])})
     c.cov['rule'] = ('schedule = sequence of "goroutine i moves to its next cb.* yield point" / clock tick, forced on the real breaker; '
